@@ -119,11 +119,28 @@ impl PartialOrd<f80> for f80 {
     }
 
     fn le(&self, rhs: &f80) -> bool {
-        !self.gt(rhs)
+        // not `!self.gt(rhs)`: that is true when an operand is NaN
+        let mut res = std::mem::MaybeUninit::<u32>::uninit();
+        unsafe {
+            let e: u32;
+            core::arch::asm! {
+                "fld     TBYTE PTR [{0}]",
+                "fld     TBYTE PTR [{1}]",
+                "fcomip  st, st(1)",
+                "fstp    st(0)",
+                "setae   al",
+                in(reg) self.0.as_ptr(),
+                in(reg) rhs.0.as_ptr(),
+                out("eax") e,
+                options(nostack)
+            }
+            *res.as_mut_ptr() = e;
+            (res.assume_init() & 1) > 0
+        }
     }
 
     fn ge(&self, rhs: &f80) -> bool {
-        !self.lt(rhs)
+        rhs.le(self)
     }
 
     fn partial_cmp(&self, rhs: &f80) -> Option<Ordering> {
